@@ -765,7 +765,15 @@ class S:
             v = CTX.fresh("sqrt")
             CTX.sqrt_tab[key] = v
             CTX.keep.append(zs)
-            CTX.defs[v.get_id()] = z3.And(v >= 0, v * v == self.z)
+            dfn = [v >= 0, v * v == self.z]
+            if z3.is_rational_value(zs) and zs.numerator_as_long() > 0:
+                # square root of a concrete non-square rational: add the (implied) enclosure lo <= v <= lo + 1e-18, which lets the linear
+                # engine decide comparisons that otherwise need nlsat over many algebraic numbers
+                fr = Fraction(zs.numerator_as_long(), zs.denominator_as_long())
+                sc = 10 ** 18
+                lo = Fraction(math.isqrt(fr.numerator * sc * sc // fr.denominator), sc)
+                dfn += [v >= z3.RealVal(str(lo)), v <= z3.RealVal(str(lo + Fraction(1, sc)))]
+            CTX.defs[v.get_id()] = z3.And(*dfn)
             CTX.sqrt_arg[v.get_id()] = self.z
         return S(CTX.sqrt_tab[key], AND(self.d, self.z >= 0))
 
